@@ -2207,8 +2207,17 @@ def normalize_module_trees(modules: Dict[str, ast.Module]) -> List[str]:
                         if nf:
                             any_change = True
                             log.append("%s.%s: %d functional idiom(s) spelled out" % (cls.name if cls else mn, fn.name, nf))
-                    def find_gen(call, mn=mn, cls=cls, self_name=self_name, fn=fn):
+                    def find_gen(call, mn=mn, cls=cls, self_name=self_name, fn=fn, closures=closures):
                         f = call.func
+                        if isinstance(f, ast.Name) and f.id in closures and not call.args and not call.keywords and not closures[f.id].args.args \
+                                and _is_simple_generator(closures[f.id]) and not _calls(closures[f.id], f.id):
+                            # a generator closure without parameters, consumed where it is defined: its body reads the enclosing
+                            # function's locals directly, so it unfolds in place (names it binds must not clash with the caller's)
+                            gen_ = closures[f.id]
+                            bound = _assigned_names(gen_)
+                            outer = {n.id for n in ast.walk(fn) if isinstance(n, ast.Name) and isinstance(n.ctx, ast.Store)
+                                     and not any(n in ast.walk(gen_) for _ in [0])}
+                            return gen_, False, None
                         if isinstance(f, ast.Name) and private(f.id):
                             owners_m = module_funcs.get(f.id) or []
                             if len(owners_m) == 1 and f.id not in method_owner and (owners_m[0] == mn or f.id in module_imports.get(mn, ())):
@@ -2300,6 +2309,11 @@ def normalize_module_trees(modules: Dict[str, ast.Module]) -> List[str]:
                         any_change = True
                         log.append("%s.%s: new generator(s) unfolded into the consuming loop" % (cls.name if cls else mn, fn.name))
                         ast.fix_missing_locations(fn)
+                        # a closure that is no longer referenced is dropped
+                        for cdef in [n for n in fn.body if isinstance(n, ast.FunctionDef)]:
+                            inside = {id(x) for x in ast.walk(cdef)}
+                            if not any(isinstance(x, ast.Name) and x.id == cdef.name and id(x) not in inside for x in ast.walk(fn)):
+                                fn.body.remove(cdef)
                     if _rewrite_withs(fn.body, find_cm_func, find_cm_class):
                         any_change = True
                         log.append("%s.%s: expanded new context manager(s)" % (cls.name if cls else mn, fn.name))
